@@ -456,6 +456,24 @@ class SrvAdapter:
                 self._run(sio.eio._trigger_event('connect', eid, {'t': t}))
             elif act == 'EioLost':
                 self._lose(a['t'], a['reason'])
+            elif act == 'RxAckDup':
+                f = self._frames(dict(a, act='RxAck'))[0]
+                if self.is_async:
+                    # engine.io hands every message to its own task: the
+                    # second ACK is processed while the first one's callback
+                    # may still be suspended
+                    s_ = self.socks[a['t']]
+
+                    async def both():
+                        await asyncio.gather(
+                            s_.receive(eio_packet.Packet(eio_packet.MESSAGE,
+                                                         f)),
+                            s_.receive(eio_packet.Packet(eio_packet.MESSAGE,
+                                                         f)))
+                    self._run(both())
+                else:
+                    self._feed(a['t'], f)
+                    self._feed(a['t'], f)
             elif act in ('RxConnect', 'RxDisconnect', 'RxEvent', 'RxAck',
                          'RxRaw'):
                 for f in self._frames(a):
@@ -469,10 +487,21 @@ class SrvAdapter:
                 if a['cb']:
                     me = self
 
-                    def cb(*args, _tag=a['cb']):
+                    def cb0(*args, _tag=a['cb']):
                         me.cbs.append({'tag': _tag, 'args': toks(args)})
                         if me.flags.get('cbRaise'):
                             raise Boom('callback')
+                    if self.is_async:
+                        # a coroutine callback that really suspends: a
+                        # duplicate ACK handled by another task runs meanwhile
+                        async def cb(*args):
+                            await asyncio.sleep(0)
+                            try:
+                                return cb0(*args)
+                            finally:
+                                await asyncio.sleep(0)
+                    else:
+                        cb = cb0
                     cb.tag = a['cb']
                     kw['callback'] = cb
                 self._call(sio.emit, a['ev'], self._emit_data(a),
